@@ -67,3 +67,8 @@ package forwarder
 //@   ensures result1 == nil ==> result0 != nil && result0.publisher == publisherOut && result0.config.AckWhenCannotUnwrap == config.AckWhenCannotUnwrap [forwards-to-the-given-publisher-with-the-given-unwrap-policy]
 //@   ensures result1 == nil ==> ncalls(ADDNPH) == old(ncalls(ADDNPH)) + 1 && sarg(ADDNPH, 2, old(ncalls(ADDNPH))) == (config.ForwarderTopic == "" ? defaultForwarderTopic : config.ForwarderTopic) && sarg(ADDNPH, 3, old(ncalls(ADDNPH))) == subscriberIn && isclosure(sarg(ADDNPH, 4, old(ncalls(ADDNPH))), "forwarder.(*Forwarder).forwardMessage$bound") && closurevar(sarg(ADDNPH, 4, old(ncalls(ADDNPH))), 0) == result0 [consumes-the-forwarder-topic-with-forwardMessage-as-a-no-publisher-handler]
 //@   modifies config.Router.middlewares, map(config.Router.handlers), wg(config.Router.handlersWg)
+
+//@ func NewPublisher
+//@   nopanic
+//@   ensures result != nil && result.wrappedPublisher == publisher [wraps-the-given-publisher]
+//@   ensures result.config.ForwarderTopic == (config.ForwarderTopic == "" ? defaultForwarderTopic : config.ForwarderTopic) [publishes-to-the-configured-forwarder-topic-or-to-the-default-one]
